@@ -23,6 +23,6 @@ CONSTANTS
  CopySchedById = FALSE
  MaxOpens = 2
 CONSTRAINT Bound
-INVARIANTS RootIsReplay EveryBoltIsAState Durable NewestLoads BoltFilesOnDisk RootFilesOnDisk NoOrphansWhenQuiescent RollbackOK
+INVARIANTS RootIsReplay EveryBoltIsAState Durable NewestLoads BoltFilesOnDisk RootFilesOnDisk NoOrphansWhenQuiescent RollbackOK RetentionWhenQuiescent NewNamesUnused
 PROPERTIES LayoutStutters ReaderStable
 CHECK_DEADLOCK FALSE
